@@ -45,6 +45,19 @@ func (c *Ctx) calleesIn(root *ssa.Function) []*ssa.Function {
 					out = append(out, g)
 				}
 			}
+			// a method value (x.m handed on as a function): the method counts as called from here
+			if mc, ok := in.(*ssa.MakeClosure); ok {
+				if w, ok := mc.Fn.(*ssa.Function); ok && strings.Contains(w.Synthetic, "bound method wrapper") {
+					instrs(w, func(in2 ssa.Instruction) {
+						if ci, ok := in2.(ssa.CallInstruction); ok {
+							if g := ci.Common().StaticCallee(); g != nil && c.inScope(g) && !seen[g] {
+								seen[g] = true
+								out = append(out, g)
+							}
+						}
+					})
+				}
+			}
 		})
 	}
 	return out
@@ -330,4 +343,89 @@ func (c *Ctx) delegatedBody(f *ssa.Function) (*ssa.Function, *symb, func(p *ssa.
 		}
 		return p
 	}
+}
+
+// iterBodyInfo: the function that does an iterator's work, rendered in the vocabulary of an iterator literal of the
+// outer function: captured parameters of the outer function as ^P0, ^P1, …, the callback as P0.
+type iterBodyInfo struct {
+	f     *ssa.Function
+	s     *symb
+	yield ssa.Value
+	lit   *ssa.Function // the literal, when there is one
+}
+
+// iterBody resolves the body of the iterator that outer returns: its single literal (or the function the literal
+// hands its whole work to), or — when outer returns a method value `T{…}.run` — that method, its receiver's fields
+// standing for what the literal would have captured.
+func (c *Ctx) iterBody(outer *ssa.Function) *iterBodyInfo {
+	if outer == nil {
+		return nil
+	}
+	if len(outer.AnonFuncs) == 1 {
+		lit := outer.AnonFuncs[0]
+		f, s, paramIn := c.delegatedBody(lit)
+		info := &iterBodyInfo{f: f, s: s, lit: lit}
+		if len(lit.Params) == 1 {
+			info.yield = paramIn(lit.Params[0])
+		}
+		return info
+	}
+	if len(outer.AnonFuncs) != 0 {
+		return nil
+	}
+	// return T{…}.method   (one block; the closure is a bound-method wrapper)
+	var mc *ssa.MakeClosure
+	instrs(outer, func(in ssa.Instruction) {
+		if rt, ok := in.(*ssa.Return); ok && len(rt.Results) == 1 {
+			v := rt.Results[0]
+			if ct, ok := v.(*ssa.ChangeType); ok {
+				v = ct.X
+			}
+			if m, ok := v.(*ssa.MakeClosure); ok {
+				mc = m
+			}
+		}
+	})
+	if mc == nil || len(mc.Bindings) != 1 {
+		return nil
+	}
+	w, ok := mc.Fn.(*ssa.Function)
+	if !ok || !strings.Contains(w.Synthetic, "bound method wrapper") {
+		return nil
+	}
+	var m *ssa.Function
+	instrs(w, func(in ssa.Instruction) {
+		if cl, ok := in.(ssa.CallInstruction); ok && cl.Common().StaticCallee() != nil {
+			m = cl.Common().StaticCallee()
+		}
+	})
+	if m == nil || m.Blocks == nil || !c.inModule(m) || len(m.Params) != 2 {
+		return nil
+	}
+	os := newSymb(outer)
+	recv := mc.Bindings[0]
+	var rsym *Sym
+	if ld, ok := recv.(*ssa.UnOp); ok && ld.Op == token.MUL {
+		if al, ok := ld.X.(*ssa.Alloc); ok {
+			if st, ok := al.Type().(*types.Pointer).Elem().Underlying().(*types.Struct); ok {
+				rsym = &Sym{Op: "struct", Args: make([]*Sym, st.NumFields())}
+				for _, ref := range *al.Referrers() {
+					if fa, ok := ref.(*ssa.FieldAddr); ok {
+						for _, r2 := range *fa.Referrers() {
+							if s2, ok := r2.(*ssa.Store); ok && s2.Addr == ssa.Value(fa) {
+								rsym.Args[fa.Field] = lift(os.expr(s2.Val))
+							}
+						}
+					}
+				}
+			}
+		}
+	}
+	if rsym == nil {
+		rsym = lift(os.expr(recv))
+	}
+	s := newSymb(m)
+	s.subst[m.Params[0]] = rsym
+	s.subst[m.Params[1]] = leaf("param", "P0", m.Params[1])
+	return &iterBodyInfo{f: m, s: s, yield: m.Params[1]}
 }
